@@ -80,6 +80,14 @@ class P:
         for src, hd in [("cat <<E\n\nfoo\nE\n", [("<<", "\nfoo\n", "E", False)]), ("cat <<-E\n\tfoo\n\tE\n", [("<<-", "\tfoo\n", "\tE", False)]),
                         ("a <<A <<B\n1\nA\n2\nB\n", [("<<", "1\n", "A", False), ("<<", "2\n", "B", False)]), ("a <<E |\nx\nE\nb\n", [("<<", "x\n", "E", False)]),
                         ("a <<'E'\n$x `c`\nE\n", [("<<", "$x `c`\n", "E", True)]), ("a <<E\n$x\nE\n", [("<<", "$x\n", "E", False)]),
+                        # the empty delimiter is matched by the first empty line
+                        ("cat <<''\nx\n\nnext\n", [("<<", "x\n", "", True)]), ("cat <<\"\"\n\nnext\n", [("<<", "", "", True)]), ("cat <<-''\n\tx\n\n", [("<<-", "\tx\n", "", True)]),
+                        ("cat <<'' <<E\na\n\nb\nE\n", [("<<", "a\n", "", True), ("<<", "b\n", "E", False)]), ("cat <<''\n$x y\nz\\\n\n\n", [("<<", "$x y\nz\\\n", "", True)]),
+                        # quote removal of the delimiter word removes every level of quoting
+                        ("cat <<\"a\\\"b\"\n$x\na\"b\n", [("<<", "$x\n", "a\"b", True)]), ("cat <<\"a\\\\b\"\nx\na\\b\n", [("<<", "x\n", "a\\b", True)]),
+                        ("cat <<\"a\\$b\"\nx\na$b\n", [("<<", "x\n", "a$b", True)]), ("cat <<'a\"b'\nx\na\"b\n", [("<<", "x\n", "a\"b", True)]),
+                        ("cat <<\"a'b\"\n$x\na'b\n", [("<<", "$x\n", "a'b", True)]), ("cat <<E\"\"\n$x\nE\n", [("<<", "$x\n", "E", True)]),
+                        ("cat <<\"a\\`b\"\nx\na`b\n", [("<<", "x\n", "a`b", True)]),
                         # a comment between an operator that allows a line break and the newline at which the bodies begin
                         ("cat <<E | # c\nbody\nE\ntr a b\n", [("<<", "body\n", "E", False)]), ("cat <<E |#c\nbody\nE\nb\n", [("<<", "body\n", "E", False)]),
                         ("cat <<E && # note\n\nx\nE\nb\n", [("<<", "\nx\n", "E", False)]), ("a <<A <<'B' || #c\n1\nA\n$2\nB\nb\n", [("<<", "1\n", "A", False), ("<<", "$2\n", "B", True)]),
@@ -95,7 +103,7 @@ class P:
         lit = []
         lines_pool = ["", "a", "E", " E", "E ", "\tE", "EE", "x y", "$x", "`c`", "\\", "\t", "\tb", "é", "#c", "'", '"']
         for _ in range(4000 if tier == "quick" else 60000):
-            delim = rnd.choice(["E", "EOF", "a b", "é"])
+            delim = rnd.choice(["E", "EOF", "a b", "é", "E", "EOF", ""])
             dash = rnd.random() < 0.4
             lines = [rnd.choice(lines_pool) for _ in range(rnd.randint(0, 5))]
             k = rnd.random()
